@@ -3,7 +3,7 @@ from common import COMMON_TB, GRAPH_TB, g_wiring, g_lifecycle, g_runners
 PROP = dict(
     module="IocProofs.C10",
     signatures=['c10-'],
-    subs=[dict(sub="gperm", n_quick=250, n_thorough=6000, project=g_wiring, driver="graph")],
+    subs=[dict(sub="gperm", n_quick=250, n_thorough=6000, project=g_wiring, driver="graph"), dict(sub="naming", n_quick=3000, n_thorough=100000)],
     thorough_seeds=2,
     level_text="Order independence of a single point is a theorem about Ioc.Match under every permutation of the population (equal for non-tied points, inside the tied set otherwise); at run level it is a theorem for starts without substitution, and a counterexample theorem pins the known order dependence with initialisation-time substitutes on cycles. Every generated scenario is started under several imposed registration/enumeration orders and with Go's own map order, the runs are compared with the model and with each other.",
     level_note="Modelled, not verified: reflect, sync.Map order (imposed), sort.Slice, third-party callbacks as flags/functions. The graph sub-harness is shared with other properties: only this property's oracles and its projection of the observation are compared here.",
